@@ -169,7 +169,7 @@ def run(ctx):
         b = sq[0]
         an = prog.an(b)
         fa = [blk for blk in b.blocks if blk.term.kind == 'call' and not blk.cleanup and any(n.endswith('::fetch_add') and 'atomic' in n for n in blk.term.callee_names())]
-        sws = [blk for blk in b.blocks if blk.term.kind == 'switch' and blk.term.j.get('dty') == 'bool' and any(s[0] == 'bin' and s[1] == 'Eq' for s in sources(an, blk.term.discr))]
+        sws = [blk for blk in b.blocks if blk.term.kind == 'switch' and blk.term.j.get('dty') == 'bool' and any(s[0] == 'bin' and s[1] in ('Eq', 'Ne') for s in sources(an, blk.term.discr))]
         ok = False
         for sw in sws:
             c = branch_condition(an, sw, 'true')
@@ -178,10 +178,11 @@ def run(ctx):
             s1 = sources(an, c[1]); s2 = sources(an, c[2])
             has_cnt = lambda s: any(x[0] == 'call' and x[1].endswith('::fetch_add') for x in s)
             has_echo = lambda s: any(x[0] == 'call' and INTERACT in x[1] for x in s)
-            if c[0] == 'Eq' and ((has_cnt(s1) and has_echo(s2)) or (has_cnt(s2) and has_echo(s1))):
+            if c[0] in ('Eq', 'Ne') and ((has_cnt(s1) and has_echo(s2)) or (has_cnt(s2) and has_echo(s1))):
                 arms = dict(sw.term.switch_arms())
-                rt = an.reach([arms['true']], ('normal',), avoid=[arms['false']])
-                rf = an.reach([arms['false']], ('normal',), avoid=[arms['true']])
+                eq_arm, ne_arm = ('true', 'false') if c[0] == 'Eq' else ('false', 'true')      # `if a != b { return Err }` is the same gate
+                rt = an.reach([arms[eq_arm]], ('normal',), avoid=[arms[ne_arm]])
+                rf = an.reach([arms[ne_arm]], ('normal',), avoid=[arms[eq_arm]])
                 ok_t = [bb for bb, cls_, det in an.ret_assignments() if cls_ == 'ok' and bb in rt]
                 ok_f = [bb for bb, cls_, det in an.ret_assignments() if cls_ == 'ok' and bb in rf]
                 err_f = [bb for bb, cls_, det in an.ret_assignments() if cls_ == 'err' and bb in rf]
